@@ -6,6 +6,7 @@ import (
 	"encoding/hex"
 	"encoding/json"
 	"fmt"
+	"runtime"
 	"strconv"
 	"strings"
 	"testing"
@@ -56,10 +57,108 @@ func c07Run(t gen.TB, w *gen.World, desc string) {
 	}
 }
 
+// c07WideLevels: QE levels whose isvsvn does not fit a signed 32-bit number (it is a uint32 in the document), listed
+// first with UpToDate; the level the report really reaches is OutOfDate. Run on this build and, as the companion
+// TestC07WordSize, on a 32-bit build, where int has 32 bits.
+func c07WideLevels(t *testing.T) {
+	for i, sv := range []uint32{1 << 31, 1<<31 + 1, 3 << 30, 1<<32 - 1, 1<<31 - 1} {
+		for _, rep := range []uint16{0, 5, 65535} {
+			w := gen.NewWorld(gen.NewPKI(gen.PKISpec{Seed: gen.PKISeeds[i%len(gen.PKISeeds)]}), gen.NewStream(gen.Seed()+uint64(i), "c07wide"))
+			w.Q.QeIsvSvn = rep
+			w.HonestCollateral()
+			w.QeID.Levels = []gen.QeLevel{{Isvsvn: sv, Status: "UpToDate"}, {Isvsvn: 0, Status: "OutOfDate"}}
+			w.Build()
+			c07Run(t, w, fmt.Sprintf("levels [{isvsvn %d UpToDate} {isvsvn 0 OutOfDate}], report ISVSVN %d (GOARCH %s)", sv, rep, runtime.GOARCH))
+		}
+	}
+	gen.Class("qe-levels-above-int32")
+}
+
+// c07AliasedMessage: a quote MESSAGE made by a non-copying reader - its attestation key and the QE report's MRSIGNER are
+// slices of one buffer holding the raw quote, in quote order - whose QE report (genuinely PCK-signed) names a foreign
+// MRSIGNER. Its QE authentication data mirrors the bytes that follow the key in the buffer, with the identity's MRSIGNER
+// where the report's stands: a verifier that ever writes "key || authentication data" into the key's spare capacity
+// rewrites the report it is about to compare. The report does not match the identity: rejected.
+func c07AliasedMessage(t *testing.T) {
+	for i, seed := range gen.PKISeeds {
+		if !gen.ShardOwns(i) {
+			continue
+		}
+		w := gen.NewWorld(gen.NewPKI(gen.PKISpec{Seed: seed}), gen.NewStream(gen.Seed()+uint64(i), "c07alias"))
+		w.HonestCollateral()
+		for k := range w.Q.QeMrSigner {
+			w.Q.QeMrSigner[k] = 0xaa // a foreign quoting enclave
+		}
+		keyEnd := 48 + 584 + 4 + 64 + 64
+		w.Q.Auth = make([]byte, 6+128+32)
+		w.Build()
+		raw0 := w.Q.Encode()
+		auth := append([]byte{}, raw0[keyEnd:keyEnd+6+128]...)
+		auth = append(auth, w.QeID.Mrsigner...)
+		w.Q.Auth = auth
+		w.Build()
+		raw := w.Q.Encode()
+		if !bytes.Equal(raw[keyEnd:keyEnd+6+128], auth[:6+128]) {
+			gen.HarnessError(t, "the bytes behind the key changed with the authentication data")
+		}
+		m := w.Q.ToProto()
+		buf := append(make([]byte, 0, len(raw)+64), raw...)
+		qer := keyEnd + 6
+		m.SignedData.EcdsaAttestationKey = buf[keyEnd-64 : keyEnd]
+		rep := m.SignedData.CertificationData.QeReportCertificationData.QeReport
+		rep.MrSigner = buf[qer+128 : qer+160]
+		rep.Attributes = buf[qer+48 : qer+64]
+		for _, l := range []gen.Level{gen.LvlColl, gen.LvlCRL} {
+			o := w.Options(l, w.NewGetter(), nil)
+			gen.Eval()
+			v := gen.Call(func() error { return verify.TdxQuote(m, o) })
+			if v.Panicked() || v.Accepted() {
+				gen.Fail(t, gen.Violation{Key: "accepts-bad-qe:foreign-mrsigner-in-a-message-that-shares-one-buffer", Oracle: "accepted only if the QE report matches the QE identity under its masks and the selected QE level is UpToDate", Detail: fmt.Sprintf("pki=%s level=%s: QE report with MRSIGNER aa..aa, message fields are slices of one buffer, authentication data of %d bytes mirroring the bytes behind the key with the identity's MRSIGNER: %s", seed, l, len(auth), v), Replay: w.CaseFile(l, raw, nil, nil, "reject")})
+				return
+			}
+			if !bytes.Equal(buf[:len(raw)], raw) {
+				gen.Fail(t, gen.Violation{Key: "accepts-bad-qe:message-buffer-rewritten", Oracle: "accepted only if the QE report matches the QE identity (the report that was signed, not one rewritten during verification)", Detail: fmt.Sprintf("pki=%s level=%s: the buffer the message's fields point into was changed by verification", seed, l), Replay: w.CaseFile(l, raw, nil, nil, "reject")})
+				return
+			}
+			gen.NonTrivial("c07alias", seed, int(l))
+		}
+	}
+	gen.Class("message-sharing-one-buffer")
+}
+
+// TestC07WordSize is the companion built for a 32-bit target.
+func TestC07WordSize(t *testing.T) {
+	gen.Direct(t, "qe-levels-above-int32", c07WideLevels)
+}
+
 func TestC07(t *testing.T) {
 	replayDir(t, "C07")
+	gen.Direct(t, "qe-levels-above-int32", c07WideLevels)
+	gen.Direct(t, "message-sharing-one-buffer", c07AliasedMessage)
 	gen.Direct(t, "message-field-width", c07MessageWidth)
 	gen.Prop(t, "signed-identity-omits-what-an-unsigned-twin-supplies", gen.N(600, 40000), c07Omitted)
+	gen.Direct(t, "status-spellings", func(t *testing.T) {
+		for i, sp := range statusNearMisses {
+			if !gen.ShardOwns(i) {
+				continue
+			}
+			w := gen.NewWorld(gen.NewPKI(gen.PKISpec{Seed: gen.PKISeeds[i%len(gen.PKISeeds)]}), gen.NewStream(gen.Seed()+uint64(i), "c07status"))
+			w.HonestCollateral()
+			for k := range w.QeID.Levels {
+				w.QeID.Levels[k].Status = sp
+			}
+			w.Build()
+			o := w.Options(gen.LvlColl, w.NewGetter(), nil)
+			gen.Eval()
+			v := gen.Call(func() error { return verify.RawTdxQuote(w.Raw, o) })
+			if v.Panicked() || v.Accepted() {
+				gen.Fail(t, gen.Violation{Key: "accepts-bad-qe:status-near-miss", Oracle: "accepted only if the QE report matches the QE identity under its masks and the selected QE level is UpToDate", Detail: fmt.Sprintf("every QE level carries tcbStatus %q: %s", sp, v), Replay: w.CaseFile(gen.LvlColl, nil, nil, nil, "reject")})
+				return
+			}
+			gen.NonTrivial("c07status", sp)
+		}
+		gen.Class("status-spellings")
+	})
 	gen.Prop(t, "model", gen.N(5000, 300000), func(t *rapid.T) {
 		w, _ := gen.DrawWorld(t, gen.WorldCfg{MaxAuth: 16, Simple: true, NoModule: true})
 		s := gen.NewStream(rapid.Uint64().Draw(t, "c"), "c07")
